@@ -104,13 +104,13 @@ func (vfs *BasePathFS) FromLinkError(err error) error {
 // A relative path is relative to the current directory of the BasePathFS,
 // and ".." elements can't go above its root.
 func (vfs *BasePathFS) ToBasePath(path string) string {
+	// a trailing separator is part of the meaning of a path (it can then only lead to a directory).
+	trailingSep := len(path) > 1 && vfs.IsPathSeparator(path[len(path)-1])
+
 	if !vfs.IsAbs(path) {
 		curDir, _ := vfs.Getwd()
 		path = vfs.Join(curDir, path)
 	}
-
-	// a trailing separator is part of the meaning of a path (it can then only lead to a directory).
-	trailingSep := len(path) > 1 && vfs.IsPathSeparator(path[len(path)-1])
 
 	path = vfs.Clean(path)
 	vl := avfs.VolumeNameLen(vfs, path)
